@@ -644,6 +644,27 @@ func runModelSeq(ms modelSeq, mon *lib.Monitor) int {
 	if len(s.methods) == 0 {
 		return 0
 	}
+	// a second, untouched instance of the same model: default options hold ONE package-level initial message per
+	// package, so both instances' stores start on the very same message. What the twin's argument-less readers
+	// return (with no mask: the shared stored message itself) is tracked like every other snapshot: no write to
+	// the driven instance may change it.
+	twin := reflect.ValueOf(e.New())
+	for _, m := range s.methods {
+		mt := m.Type
+		readOnlyShape := mt.NumIn() == 1 || (mt.NumIn() == 2 && mt.IsVariadic() && mt.In(1).Elem() == tReadOpt)
+		if !readOnlyShape || mt.NumOut() == 0 || !(strings.HasPrefix(m.Name, "Get") || mt.NumIn() == 2) {
+			continue
+		}
+		var outs []reflect.Value
+		if p, _ := lib.Catch(func() { outs = twin.MethodByName(m.Name).Call(nil) }); p {
+			continue
+		}
+		for k, o := range outs {
+			if o.Kind() != reflect.Chan {
+				s.harvest(o, fmt.Sprintf("twin-instance.%s/ret%d", m.Name, k), 0, true)
+			}
+		}
+	}
 	calls := 0
 	for i := 0; i < ms.Steps; i++ {
 		method, hung := s.step(i)
